@@ -3,7 +3,7 @@
    extract/state.py (which also audits for interior mutability); query operations are pure
    functions of (state, operation).                                                        *)
 From Coq Require Import List Bool Arith.
-From NI Require Import Base History.
+From NI Require Import Base History Interleave.
 Import ListNotations.
 
 Theorem C17_history_state_invariant :
@@ -26,7 +26,17 @@ Theorem C17_permutation_invariant :
 Proof. exact @permutation_invariant. Qed.
 Print Assumptions C17_permutation_invariant.
 
-(* Partial: thread interleavings, data races and the Send / Sync auto traits cannot be exhibited
+(* any interleaving of the operation sequences of several threads (sequential consistency): every thread
+   sees exactly the answers it would see alone, and the interpolator is unchanged *)
+Theorem C17_interleaving_invisible :
+  forall (S Op Ans : Type) (answer : S -> Op -> Ans) (s : S) (schedule : list (nat * Op)) (t : nat),
+    fst (run_history (ans_tagged answer) s schedule) = s /\
+    thread_view t schedule (snd (run_history (ans_tagged answer) s schedule))
+    = combine (thread_ops t schedule) (snd (run_history answer s (thread_ops t schedule))).
+Proof. exact @interleaving_invisible. Qed.
+Print Assumptions C17_interleaving_invisible.
+
+(* Partial: executions that are not sequentially consistent, data races and the Send / Sync auto traits cannot be exhibited
    by a Gallina model.  What the check adds on every run: (a) the extractor's audit that no
    struct field, static or thread_local introduces shared mutable state and that every query
    method takes &self; (b) random histories replayed in permuted order and split over 2..16
